@@ -441,7 +441,11 @@ func (P *Prog) instrEffects(in ssa.Instruction, eff *effects, seen map[*ssa.Func
 	case *ssa.Defer:
 		P.callEffects(i.Common(), eff, seen)
 	case *ssa.Go:
-		eff.all = true
+		if i.Common().StaticCallee() != nil && !i.Common().IsInvoke() {
+			P.callEffects(i.Common(), eff, seen)
+		} else {
+			eff.all = true
+		}
 	}
 }
 
